@@ -80,3 +80,38 @@ def width_of(path):
         ty = ty[:ty.index(">")]
         return {"u8": 1, "i8": 1, "u16": 2, "i16": 2, "u32": 4, "i32": 4, "u64": 8, "i64": 8}.get(ty)
     return None
+
+
+def json_inserts(fn, fa):
+    """[(block, map local, key string|None, value expr, loc)] for every `serde_json::Map::insert(&mut m, key.into(), value)` of a body
+    (what `json!({...})` lowers to)."""
+    out = []
+    for (bb, t) in fn.calls():
+        path = t["f"].get("path", "")
+        if not (path.startswith("serde_json::Map::<") and path.endswith("::insert")):
+            continue
+        n = len(fn.blocks[bb]["stmts"])
+        a0 = t["args"][0]
+        ml = None
+        # `&mut m` temp -> m
+        l = a0.get("p", {}).get("l") if isinstance(a0, dict) else None
+        for _ in range(3):
+            if l is None:
+                break
+            ds = fa.defs.get(l, [])
+            if len(ds) == 1 and ds[0][2] == "assign" and ds[0][3]["k"] in ("ref", "raw"):
+                ml = ds[0][3]["p"]["l"]
+                break
+            if len(ds) == 1 and ds[0][2] == "assign" and ds[0][3]["k"] == "use" and isinstance(ds[0][3]["o"], dict):
+                l = ds[0][3]["o"].get("p", {}).get("l")
+            else:
+                break
+        key = strip_old(fa.val_operand(t["args"][1], (bb, n)))
+        ks = None
+        for x in walk(key):
+            if x[0] == "const" and isinstance(x[1], str):
+                ks = x[1]
+                break
+        val = strip_old(fa.val_operand(t["args"][2], (bb, n)))
+        out.append((bb, ml, ks, val, t.get("loc")))
+    return out
